@@ -178,7 +178,11 @@ pub(crate) const FUNC_TABLE: FuncTable = FuncTable {
 
 fn func_random(ctx: &EvalContext, args: &[Expr]) -> Result<i64, ExprError> {
     let max = args[0].eval(ctx)?;
-    Ok(ctx.random(1..max))
+    if max <= 1 {
+        return Err(ExprErrorKind::EmptyRandomRange(max).into());
+    }
+    let value = ctx.random(1..max);
+    Ok(value)
 }
 
 fn func_ite(ctx: &EvalContext, args: &[Expr]) -> Result<i64, ExprError> {
